@@ -115,8 +115,14 @@ class LearnRun:
 
     def run(self, coverage=True):
         for k in self.ks:
-            self.jobs[k], errs = jobdef.gen_jobs(self.defs, k, stats=self.stats, coverage=coverage)
-            for di, e in enumerate(errs):
+            # job sets far above the cap are not generated at all (they would be skipped anyway)
+            cap = (self.max_jobs or 10 ** 6) * 3
+            small = [di for di, d in enumerate(self.defs) if puml.njobs_estimate(d, k, 10 ** 7) <= cap]
+            js, errs = jobdef.gen_jobs([self.defs[di] for di in small], k, stats=self.stats, coverage=coverage)
+            self.jobs[k] = [[None] * (cap + 1)] * len(self.defs)          # placeholder: "over the cap"
+            self.jobs[k] = list(self.jobs[k])
+            for di, j, e in zip(small, js, errs):
+                self.jobs[k][di] = j
                 if e:
                     raise RuntimeError("source definition %s is ill-formed (break across a join)" % self.named[di][0])
         cases = []
